@@ -193,7 +193,7 @@ def norm(msg):
     return re.sub(r"\d+", "#", re.sub(r"0x[0-9a-f]+", "P", msg))
 
 
-SRC_NAMES = ["ptr", "stdvec", "deque", "list", "fwdlist", "input", "move_ptr", "move_list"]
+SRC_NAMES = ["ptr", "stdvec", "deque", "list", "fwdlist", "input", "move_ptr", "move_list", "conv"]
 
 
 def opkind(op):
